@@ -372,8 +372,15 @@ func vfC18GenOps(t *rapid.T, n int, pool []string) []vfC18Op {
 		return vfC18GenKey(t)
 	}
 	for i := 0; i < n; i++ {
-		k := rapid.SampledFrom([]string{"set", "set", "remove", "setbatch", "removebatch"}).Draw(t, "opkind")
+		k := rapid.SampledFrom([]string{"set", "set", "remove", "setbatch", "removebatch", "setodd"}).Draw(t, "opkind")
 		op := vfC18Op{Kind: k}
+		if k == "setodd" {
+			// what an API client may send that is no host name: whatever the API does with it, the file has to follow
+			op.Keys = []string{rapid.SampledFrom([]string{"0.0.0.0 ads.example.com", "ads.example.com\t", "ads.example.com #1", "a#b.example.com", "two words", "line\nbreak.example.com",
+				strings.Repeat("a", 70000) + ".example.com", strings.Repeat("b.", 140) + "com", " lead.example.com"}).Draw(t, "oddkey")}
+			ops = append(ops, op)
+			continue
+		}
 		nk := 1
 		if strings.HasSuffix(k, "batch") {
 			nk = rapid.IntRange(1, 4).Draw(t, "nkeys")
@@ -413,6 +420,18 @@ func vfC18Apply(b *BlockList, m *vfC18Model, op vfC18Op) error {
 		}
 		if got := b.RemoveBatch(op.Keys); got != want {
 			return fmt.Errorf("RemoveBatch(%v)=%d reference %d", op.Keys, got, want)
+		}
+	case "setodd":
+		// no prediction of what the API makes of a key that is no host name; the reference continues from what
+		// memory holds afterwards, and the persisted list is held against that
+		b.Set(op.Keys[0])
+		m.plain, m.wild = map[string]bool{}, map[string]bool{}
+		for _, l := range vfC18MemLines(b) {
+			if strings.HasPrefix(l, "*.") {
+				m.wild[l[2:]] = true
+			} else {
+				m.plain[l] = true
+			}
 		}
 	}
 	return nil
